@@ -49,7 +49,7 @@ CHECK = {
     "property": "C23",
     "props": "Props/C23.v",
     "theorems": ["c23_fields_disjoint", "c23_escape", "c23_character_string", "c23_name", "c23_uint", "c23_class", "c23_type",
-                 "c23_ipv4", "c23_ipv6", "c23_navigation", "c23_line_end", "c23_rdata", "c23_record_line", "c23_line", "c23_file_roundtrip"],
+                 "c23_ipv4", "c23_ipv6", "c23_navigation", "c23_line_end", "c23_rdata", "c23_record_line", "c23_line", "c23_file_roundtrip", "c23_file_roundtrip_records_only"],
     "allowed_axioms": [],
     "suites": [
         {"name": "zonefile", "runner_name": "C24_run", "impl_bin": "impl_c24", "extract": "Extract/ExC24.v", "driver": "run_c24.ml",
